@@ -40,6 +40,16 @@ type LockStep struct {
 	// Ctx, if set, gives the enclosing-block context of a node id; it is appended to the
 	// signatures of the request clauses ("...@incl<loop").
 	Ctx func(nodeID string) string
+	// GrammarSig, if set, replaces the signature "C09/engine/causal-order" of a trace-grammar
+	// failure (families whose input shape must be visible in the signature)
+	GrammarSig string
+}
+
+func (ls *LockStep) grammarSig() string {
+	if ls.GrammarSig != "" {
+		return ls.GrammarSig
+	}
+	return "C09/engine/causal-order"
 }
 
 func diffMultiset(impl, model []string) (extra, missing []string) {
@@ -110,7 +120,7 @@ func (ls *LockStep) Compare(r *Run, m *Model, history []string) bool {
 		return false
 	}
 	if len(r.Grammar) > 0 {
-		h.Fail("C09/engine/causal-order", "%s (history %v)", r.Grammar[0], history)
+		h.Fail(ls.grammarSig(), "%s (history %v)", r.Grammar[0], history)
 		return false
 	}
 	return true
@@ -327,7 +337,7 @@ func (ls *LockStep) Body() func() {
 		for step := 0; ; step++ {
 			verifrt.WaitIdle()
 			if len(r.Grammar) > 0 {
-				h.Fail("C09/engine/causal-order", "%s (history %v)", r.Grammar[0], history)
+				h.Fail(ls.grammarSig(), "%s (history %v)", r.Grammar[0], history)
 				dump()
 				return
 			}
